@@ -83,6 +83,15 @@ def run(rep, tier):
             rep.ob(all(p[2] == 'USPAN' and _re.match(r'^length#[0-9]+$', p[3] or '') for p in pay), '%s:ENC-PAYLOAD' % f,
                    'C05 %s does not copy exactly `length` bytes of the caller\'s data as payload: %s' % (f, pay[:2]), '',
                    sample={'fn': f, 'payload': 'caller span, announced length'})
+        # little-endian payload: payload byte k is byte k of the value / length / double bit pattern
+        eb = T.encoder_bytes(mod)
+        for f, rows in eb.items():
+            need(rows, 'C05: no packed bytes observed for %s' % f)
+            for (w, by) in rows:
+                ok = len(by) == w and all(d is not None and d[0] == 'v' and d[2] == k and d[1] == by[0][1] for k, d in enumerate(by))
+                rep.ob(ok, '_int_pack_size:ENC-LE:%s:%d' % (f, w),
+                       'C05 %s: the %d payload bytes are not the value\'s bytes in little-endian order: %s' % (f, w, list(by)), '',
+                       sample={'fn': f, 'width': w, 'payload_bytes': [list(d) if d else None for d in by]})
         rep.coverage['encoder_table'] = {k: [list(map(str, r)) for r in v] for k, v in enc.items() if k.endswith(':pack')}
     rep.coverage.update({
         'rule': 'extracted (value piece -> type byte, width) table equals shortest-form sets of the grammar at every boundary, per sign',
@@ -90,4 +99,4 @@ def run(rep, tier):
         'explanation': 'table extraction by abstract evaluation of the width selection; compared with the grammar',
         'exhaustive': True,
     })
-    rep.assumptions += ['NOT decided: little-endian byte order of the payload, verbatim copy of content, acceptance by verify (value-level)']
+    rep.assumptions += ['NOT decided: verbatim copy of string/bytes content beyond (source span, length); acceptance by verify (value-level)']
